@@ -87,6 +87,14 @@ class Runner:
             n = L.cls("LHide")(kid=ch[0] if ch else None, v=0, origin=w.origin(0))
             exp = [(ch[0], "kid", None)] if ch else []
             self.lab.tag_if(bool(ch) and type(ch[0]).__name__ == "LHide", "node-equal-to-its-parent")
+        elif k % 4 == 3 and o % 2:
+            # children in fields whose annotations name no node class (found by looking at the values)
+            ch = w.pick_children(sels, set())
+            dyn = ch[0] if ch and v % 3 else None
+            dseq = tuple(ch[1:] if dyn is not None else ch)
+            n = L.cls("LDyn")(dyn=dyn, dseq=dseq, v=v % 3, origin=w.origin(o))
+            exp = ([(dyn, "dyn", None)] if dyn is not None else []) + [(x, "dseq", i) for i, x in enumerate(dseq)]
+            self.lab.tag("runtime-detected-child-fields")
         elif k % 4 == 3:
             ch = w.pick_children(sels[:1], set())
             if not ch:
@@ -280,6 +288,8 @@ class Runner:
         was_att = not n.detached
         p, pf, pi = n.parent, n.parent_field, n.parent_index
         want = L.UN_CLASSES if (pf is not None and pf.name == "un") else None
+        if pf is not None and pf.name in ("dyn", "dseq") and was_att:
+            return  # no static type info for a field whose annotation names no node class: replace_with refuses (RuntimeError)
         if pf is not None and pf.name == "oseq" and was_att:
             return  # the static type info of an optional sequence lists no node types: the swap is rejected (C19)
         exclude = {id(a) for a in w.ancestors_of(n)} | {id(x) for x in E.subtree(n)}
